@@ -73,6 +73,33 @@ impl RMesh {
         RMesh { verts, tris, box_half: Some(half), box_centre: centre, min_leg }
     }
 
+    /// Flat rectangular plate in the local plane `axis` = 0 (zero thickness, an open surface), half extents hu x hv along
+    /// the two other axes, subdivided n x n (n >= 1). No box information (a surface contains nothing).
+    pub fn plate(axis: usize, hu: f64, hv: f64, n: usize) -> RMesh {
+        let n = n.max(1);
+        let (u, v) = ((axis + 1) % 3, (axis + 2) % 3);
+        let mut verts: Vec<V3> = vec![];
+        let mut tris: Vec<[u32; 3]> = vec![];
+        for i in 0..=n {
+            for j in 0..=n {
+                let mut p = [0.0; 3];
+                p[u] = -hu + 2.0 * hu * i as f64 / n as f64;
+                p[v] = -hv + 2.0 * hv * j as f64 / n as f64;
+                verts.push([f32r(p[0]), f32r(p[1]), f32r(p[2])]);
+            }
+        }
+        let w = (n + 1) as u32;
+        for i in 0..n as u32 {
+            for j in 0..n as u32 {
+                let a = i * w + j;
+                tris.push([a, a + 1, a + w]);
+                tris.push([a + w, a + 1, a + w + 1]);
+            }
+        }
+        let min_leg = min_leg_of(&verts, &tris);
+        RMesh { verts, tris, box_half: None, box_centre: [0.0; 3], min_leg }
+    }
+
     /// Concatenation of two meshes (first `a`, then `b` moved by `offset`): a mesh of two
     /// disconnected parts. No box information (containment tests do not apply).
     pub fn two_parts(a: &RMesh, offset_a: V3, b: &RMesh, offset_b: V3) -> RMesh {
